@@ -231,6 +231,42 @@ fn main() {
                 None => println!("cursor=open-failed"),
             }
         }
+        // block_iter ops targetU:seq uk:seq:op:vv ... : entries written by the real BlockBuilder (restart intervals 1, 2 and 16),
+        // parsed by the real BlockReader; its iterator is driven through ops; the reference cursor runs over the entry list
+        "block_iter" => {
+            let ops: Vec<&str> = a[1].split(',').collect();
+            let t = key(a[2]);
+            let ents: Vec<(Vec<u8>, u64, bool, u8)> = a[3..].iter().map(|e| { let p: Vec<&str> = e.split(':').collect(); (hex(p[0]), num(p[1]), p[2] == "1", hex(p[3])[0]) }).collect();
+            // reference
+            let ge = |e: &(Vec<u8>, u64, bool, u8)| e.0.as_slice() > t.0.as_slice() || (e.0 == t.0 && e.1 <= t.1);
+            let n = ents.len();
+            let mut pos: Option<usize> = None;
+            let mut exp: Vec<String> = vec![];
+            for o in &ops {
+                match *o {
+                    "first" => pos = if n > 0 { Some(0) } else { None },
+                    "last" => pos = if n > 0 { Some(n - 1) } else { None },
+                    "seek" => pos = ents.iter().position(|e| ge(e)),
+                    "next" => { if pos.is_none() { break; } pos = pos.and_then(|p| if p + 1 < n { Some(p + 1) } else { None }) }
+                    _ => { if pos.is_none() { break; } pos = pos.and_then(|p| if p > 0 { Some(p - 1) } else { None }) }
+                }
+                exp.push(match pos { Some(p) => format!("{}:{}:{:02x}", tohex(&ents[p].0), ents[p].1, ents[p].3), None => "none".to_string() });
+            }
+            let mut got_all: Vec<String> = vec![];
+            for ri in [1usize, 2, 16] {
+                let c = std::panic::catch_unwind(|| v::block_iter_cursor(ri, &ents, &ops, (&t.0, t.1)));
+                let got = match c {
+                    Ok(Some(c)) => c.iter().map(|x| match x { Some((k, s, val)) => format!("{}:{}:{:02x}", tohex(k), s, val), None => "none".to_string() }).collect::<Vec<_>>().join(","),
+                    Ok(None) => "unreadable".to_string(),
+                    Err(_) => "panicked".to_string(),
+                };
+                got_all.push(got);
+            }
+            let e = exp.join(",");
+            let bad = got_all.iter().find(|g| **g != e).cloned();
+            println!("cursor={}", bad.unwrap_or_else(|| e.clone()));
+            println!("expected={}", e);
+        }
         // table_seek_corrupt bad_block targetU:seq shape uk:seq:op:vv ... : one byte of data block `bad_block` is flipped on disk
         "table_seek_corrupt" => {
             let bad = num(a[1]) as usize;
